@@ -62,12 +62,16 @@ def u_format(c):
     messages = {"str": "hello", "str-with-newlines": "line1\nERROR forged entry\r\nline3\n", "bytes-like-text": "b'\\xff\\n'"}
 
     def get_message():
+        e = None
         if msg_kind == "raises-TypeError":
-            raise TypeError("not all arguments converted during string formatting")
+            e = TypeError("not all arguments converted during string formatting")
         if msg_kind == "raises-UnicodeError":
-            raise UnicodeDecodeError("utf-8", b"\xff", 0, 1, "invalid start byte")
+            e = UnicodeDecodeError("utf-8", b"\xff", 0, 1, "invalid start byte")
         if msg_kind == "raises-arbitrary":
-            raise RuntimeError("__str__ failed\nwith a newline")
+            e = RuntimeError("__str__ failed\nwith a newline")
+        if e is not None:
+            e.pyvc_modelled = True       # models what LogRecord.getMessage() does for such arguments
+            raise e
         return T(messages[msg_kind], "message")
     rec.getMessage = get_message
     if exc_kind in ("exc_info", "exc_info-and-text"):
